@@ -8,6 +8,7 @@ import (
 	"bytes"
 	"errors"
 	"fmt"
+	"os"
 	"strings"
 	"testing"
 
@@ -16,6 +17,7 @@ import (
 	"github.com/panjf2000/gnet/v2/internal/verifmc/mcsys"
 	"github.com/panjf2000/gnet/v2/internal/verifmc/sched"
 	"github.com/panjf2000/gnet/v2/internal/verifmc/seqmc"
+	"github.com/panjf2000/gnet/v2/pkg/buffer/ring"
 	bsPool "github.com/panjf2000/gnet/v2/pkg/pool/byteslice"
 	rbPool "github.com/panjf2000/gnet/v2/pkg/pool/ringbuffer"
 )
@@ -53,20 +55,32 @@ type inState struct {
 // churnPools plays an unrelated connection: it takes buffers of the sizes in play from the shared
 // byte-slice and ring-buffer pools, scribbles over them and puts them back.
 func churnPools(n int) {
+	// several buffers of each class are held at the same time: sync.Pool hands out its private slot
+	// first, so a single Get/Put pair would keep receiving its own buffer back
+	var held [][]byte
 	for _, k := range []int{n, 1, 512, 1024, 2048, 4096} {
 		if k <= 0 {
 			continue
 		}
-		b := bsPool.Get(k)
-		for i := range b[:cap(b)] {
-			b[:cap(b)][i] = 0xA5
+		for r := 0; r < 4; r++ {
+			b := bsPool.Get(k)
+			full := b[:cap(b)]
+			for i := range full {
+				full[i] = 0xA5
+			}
+			held = append(held, b)
 		}
+	}
+	for _, b := range held {
 		bsPool.Put(b)
 	}
-	for i := 0; i < 2; i++ {
+	var rings []*ring.Buffer
+	for i := 0; i < 3; i++ {
 		rb := rbPool.Get()
-		junk := bytes.Repeat([]byte{0x5A}, 1500)
-		_, _ = rb.Write(junk)
+		_, _ = rb.Write(bytes.Repeat([]byte{0x5A}, 1500))
+		rings = append(rings, rb)
+	}
+	for _, rb := range rings {
 		rbPool.Put(rb)
 	}
 }
@@ -92,7 +106,9 @@ func (l *limitWriter) Write(p []byte) (int, error) {
 	return n, nil
 }
 
-var inOps = []string{"next-all", "nothing", "read1", "read-all", "read-all+8", "next1", "peek1+discard1", "peek-all+discard-all", "peek-across+discard", "peek-all+discard1", "discard1", "writeto-all", "writeto-short"}
+var inOps = []string{"next-all", "nothing", "read1", "read-all", "read-all+8", "next1", "peek1+discard1", "peek-all+discard-all", "peek-across+discard", "peek-all+discard1", "discard1", "writeto-all", "writeto-short",
+	// composite steps (one choice): a slice obtained from Next must survive later calls in the same callback
+	"next1,discard1", "next1,peek-all+discard1", "next1,next-all"}
 
 // consume performs one consumption step chosen by the explorer and checks it positionally.
 func (w *world) consume(ci *connInfo, st *inState, op string) {
@@ -140,6 +156,9 @@ func (w *world) consume(ci *connInfo, st *inState, op string) {
 				fail("view-recycled", "the slice returned by Peek was overwritten by an unrelated user of the shared buffer pools while the handler still holds it")
 			}
 			for i := range st.nextViews {
+				if os.Getenv("MC_DEBUG_PRINT") != "" {
+					fmt.Printf("DBG op=%s view[%d] len=%d cap=%d ptr=%p cache=%p/%d\n", op, i, len(st.nextViews[i]), cap(st.nextViews[i]), &st.nextViews[i][:1][0], ci.c.(*conn).cache, len(ci.c.(*conn).cache))
+				}
 				churnPools(len(st.nextViews[i]))
 				if !bytes.Equal(st.nextViews[i], st.nextWants[i]) {
 					fail("view-recycled", "a slice returned by Next was overwritten by an unrelated user of the shared buffer pools while the handler still holds it (it had been given back to a pool)")
@@ -147,6 +166,11 @@ func (w *world) consume(ci *connInfo, st *inState, op string) {
 			}
 		}
 	}()
+	if i := strings.IndexByte(op, ','); i > 0 {
+		w.consume(ci, st, op[:i])
+		w.consume(ci, st, op[i+1:])
+		return
+	}
 	switch op {
 	case "nothing":
 	case "next-all":
@@ -278,6 +302,12 @@ func inWorld(c inCfg) *world {
 	w.onTraffic = func(w *world, ci *connInfo) Action {
 		w.inInvariant(ci, st, "at OnTraffic entry")
 		op := inOps[sched.Choose(len(inOps), "consume")]
+		if f := os.Getenv("MC_FORCE"); f != "" { // development aid: force the consumption steps
+			steps := strings.Split(f, ";")
+			if ci.traffics-1 < len(steps) {
+				op = steps[ci.traffics-1]
+			}
+		}
 		w.consume(ci, st, op)
 		w.inInvariant(ci, st, "after "+op)
 		if c.chain && op != "next-all" {
